@@ -307,6 +307,13 @@ func init() {
 					lastGet = ""
 					continue
 				}
+				for _, e := range raw {
+					// the first existing candidate wins: a file that exists but cannot be opened / read / parsed
+					// makes the lookup fail, it is never skipped in favour of a later candidate
+					if e[0] == 'O' && ld.fault[e[2:]] != "" && fail == "" {
+						fail = "the lookup of " + strconv.Quote(name) + " succeeded although opening " + e[2:] + " failed (" + ld.fault[e[2:]] + "): a fault was swallowed"
+					}
+				}
 				if op.Xs[0].A == "get" && !dev && lastGet == name {
 					if t != lastGetT && fail == "" {
 						fail = "repeated GetTemplate(" + strconv.Quote(name) + ") returned a different template"
